@@ -2188,6 +2188,8 @@ fn main() {
         ob == pat
     };
     std::panic::set_hook(Box::new(|_| {}));
+    // VX_REPLAY_DET=1: only the searches that run in memory, without sockets, child processes or clocks (the part of the corpus that is run after EVERY successful proof)
+    let det = std::env::var("VX_REPLAY_DET").is_ok();
     let seq_obs: Vec<&str> = ["C01.served", "C01.answers", "C01.record", "C01.prefix-answered", "C02.conserve", "C06.reject", "C04.silent", "C04.funnel", "C05.wire",
         "C03.route", "C03.builtin", "C03.split", "C03.std-error", "C03.info", "C06.no-panic"].iter().cloned().filter(|o| m(o)).collect();
     if !seq_obs.is_empty() { search_sequences(&seq_obs); }
@@ -2198,41 +2200,41 @@ fn main() {
     if m("C05.gate") { search_gate("C05.gate"); }
     if m("C06.no-reply") { search_malformed("C06.no-reply"); }
     if m("C02.upgrade") { search_upgrade("C02.upgrade"); }
-    if m("C02.listen-forward") { search_listen_forward("C02.listen-forward"); }
-    if m("C02.no-wait") { search_no_wait("C02.no-wait"); }
+    if !det && m("C02.listen-forward") { search_listen_forward("C02.listen-forward"); }
+    if !det && m("C02.no-wait") { search_no_wait("C02.no-wait"); }
     if m("C17.set-de") { search_stringset("C17.set-de"); }
     if m("C17.set-ser") { search_stringset("C17.set-ser"); }
-    if m("C14.bound") { search_pool_bound("C14.bound"); }
-    if m("C14.no-strand") { search_pool_strand("C14.no-strand"); }
-    if m("C14.w-monotone") { search_pool_strand("C14.w-monotone"); }
+    if !det && m("C14.bound") { search_pool_bound("C14.bound"); }
+    if !det && m("C14.no-strand") { search_pool_strand("C14.no-strand"); }
+    if !det && m("C14.w-monotone") { search_pool_strand("C14.w-monotone"); }
     let cl: Vec<&str> = ["C07.once", "C07.busy", "C07.take", "C07.reuse", "C07.outcome", "C07.kind", "C05.recv", "C05.next", "C05.more", "C04.client"].iter().cloned().filter(|o| m(o)).collect();
     if !cl.is_empty() { search_client(&cl); }
     let th: Vec<&str> = ["C07.busy", "C07.take", "C07.no-panic"].iter().cloned().filter(|o| m(o)).collect();
-    if !th.is_empty() { search_client_threads(&th); }
+    if !det && !th.is_empty() { search_client_threads(&th); }
     let lt: Vec<&str> = ["C15.idle", "C15.drain", "C15.drain-w", "C15.busy", "C15.stop", "C15.no-panic"].iter().cloned().filter(|o| m(o)).collect();
-    if !lt.is_empty() { search_listen_time(&lt); }
-    if m("C15.unlink") { search_unlink("C15.unlink"); }
+    if !det && !lt.is_empty() { search_listen_time(&lt); }
+    if !det && m("C15.unlink") { search_unlink("C15.unlink"); }
     if m("C11.iface-name-bounded") { search_iface_names(&["C11.iface-name-bounded"]); }
     if m("C11.type-expr-bounded") { search_type_exprs(&["C11.type-expr-bounded"]); }
     let idl: Vec<&str> = ["C11.dups-reported", "C11.reject-dups", "C11.no-false-dups", "C11.accept", "C11.order", "C11.mirror", "C11.reject-syntax", "C11.no-panic"].iter().cloned().filter(|o| m(o)).collect();
     if !idl.is_empty() { search_idl(&idl); }
     let ad: Vec<&str> = ["C16.scheme", "C16.params", "C16.activation", "C16.no-panic"].iter().cloned().filter(|o| m(o)).collect();
-    if !ad.is_empty() { search_address(&ad); }
+    if !det && !ad.is_empty() { search_address(&ad); }
     if m("C03.info") { search_info_dups("C03.info"); }
     let cli: Vec<&str> = ["C20.split", "C20.status", "C20.print", "C20.no-panic"].iter().cloned().filter(|o| m(o)).collect();
-    if !cli.is_empty() { search_cli(&cli); }
+    if !det && !cli.is_empty() { search_cli(&cli); }
     let br: Vec<&str> = ["C18.relay", "C18.copy", "C18.request", "C18.getinfo", "C18.oneway", "C18.no-panic"].iter().cloned().filter(|o| m(o)).collect();
-    if !br.is_empty() { search_bridge(&br); }
+    if !det && !br.is_empty() { search_bridge(&br); }
     let act: Vec<&str> = ["C16.pre-exec-safe", "C16.activation-fd", "C16.activation-env"].iter().cloned().filter(|o| m(o)).collect();
-    if !act.is_empty() { search_activation(&act); }
+    if !det && !act.is_empty() { search_activation(&act); }
     let bc: Vec<&str> = ["C16.bridge-fds"].iter().cloned().filter(|o| m(o)).collect();
-    if !bc.is_empty() { search_bridge_conn(&bc); }
+    if !det && !bc.is_empty() { search_bridge_conn(&bc); }
     let pd: Vec<&str> = ["C12.line", "C12.no-panic"].iter().cloned().filter(|o| m(o)).collect();
     if !pd.is_empty() { search_parse_diag(&pd); }
     let gen: Vec<&str> = ["C08.dispatch", "C08.method-name", "C08.args", "C08.client", "C08.no-panic"].iter().cloned().filter(|o| m(o)).collect();
-    if !gen.is_empty() { search_gen(&gen); }
+    if !det && !gen.is_empty() { search_gen(&gen); }
     let cert: Vec<&str> = ["C19.gate", "C19.step", "C19.own-id", "C19.mode", "C19.value"].iter().cloned().filter(|o| m(o)).collect();
-    if !cert.is_empty() { search_cert(&cert); }
+    if !det && !cert.is_empty() { search_cert(&cert); }
     let fm: Vec<&str> = ["C10.parse-bounded", "C10.preserve-bounded", "C10.idempotent-bounded", "C10.colored-bounded", "C10.display-bounded"].iter().cloned().filter(|o| m(o)).collect();
     if !fm.is_empty() { search_format(&fm); }
     let gn: Vec<&str> = ["C09.reject", "C09.io", "C09.emit", "C09.nothing-on-failure", "C09.total", "C09.no-panic"].iter().cloned().filter(|o| m(o)).collect();
